@@ -14,17 +14,20 @@ import DateutilVerif.Ops.Parser
 import DateutilVerif.Ops.QueryOps
 import DateutilVerif.Ops.RRule
 import DateutilVerif.Ops.RRuleStr
+import DateutilVerif.Ops.RRuleStrGen
 import DateutilVerif.Ops.RSetOps
+import DateutilVerif.Ops.ReduceOps
 import DateutilVerif.Ops.RelativeDelta
 import DateutilVerif.Ops.ReplaceOps
 import DateutilVerif.Ops.TzGen
 import DateutilVerif.Ops.TzObjGen
 import DateutilVerif.Ops.TzStr
+import DateutilVerif.Ops.TzifGen
 import DateutilVerif.Ops.Weekday
 import DateutilVerif.Ops.Zones
 
 def handlers : List (String → List String → Option String) :=
-  [Ops.Base.handle, Ops.CacheOps.handle, Ops.Factory.handle, Ops.GettzGen.handle, Ops.ICal.handle, Ops.IsoParser.handle, Ops.NestedOps.handle, Ops.Parser.handle, Ops.QueryOps.handle, Ops.RRule.handle, Ops.RRuleStr.handle, Ops.RSetOps.handle, Ops.RelativeDelta.handle, Ops.ReplaceOps.handle, Ops.TzGen.handle, Ops.TzObjGen.handle, Ops.TzStr.handle, Ops.Weekday.handle, Ops.Zones.handle]
+  [Ops.Base.handle, Ops.CacheOps.handle, Ops.Factory.handle, Ops.GettzGen.handle, Ops.ICal.handle, Ops.IsoParser.handle, Ops.NestedOps.handle, Ops.Parser.handle, Ops.QueryOps.handle, Ops.RRule.handle, Ops.RRuleStr.handle, Ops.RRuleStrGen.handle, Ops.RSetOps.handle, Ops.ReduceOps.handle, Ops.RelativeDelta.handle, Ops.ReplaceOps.handle, Ops.TzGen.handle, Ops.TzObjGen.handle, Ops.TzStr.handle, Ops.TzifGen.handle, Ops.Weekday.handle, Ops.Zones.handle]
 
 def dispatch (line : String) : String :=
   match (line.trimAscii.toString.splitOn " ").filter (· ≠ "") with
